@@ -97,7 +97,19 @@ def call_site_task():
             from bounded import c14
             r.witness = {"call": ast.unparse(c)}
             r.replay = c14.limit_off_case()
-        return [r]
+        # ... and the conversion is applied to whatever source self.reader was given: the `if fixed:` statement stands at the top level of __init__, after every
+        # branch (preprocessor output, fallback after a preprocessor error, plain file) has bound self.reader
+        guards = [n for n in fn.body if isinstance(n, ast.If) and ast.unparse(n.test) == "fixed" and any(x is c for x in ast.walk(n))]
+        binds = [n.lineno for n in ast.walk(fn) if isinstance(n, ast.Assign) and any(ast.unparse(t) == "self.reader" for t in n.targets) and not any(x is c for x in ast.walk(n))]
+        dom = bool(guards) and all(b < guards[0].lineno for b in binds)
+        r2 = OR(id=f"{PROP}.S.FortranReader.__init__.every_source_of_a_fixed_form_file_is_converted", status=PROVED if dom else REFUTED, kind="S", role="post", backend="ast",
+                target="ford.reader.FortranReader.__init__", desc="`if fixed: self.reader = convertToFree(...)` is a statement of the function body placed after every other assignment to "
+                                                                 "self.reader (preprocessed or not, a fixed-form file is converted)")
+        if not dom:
+            from bounded import c14
+            r2.witness = {"assignments_to_self.reader_at_lines": binds, "conversion": "not at top level" if not guards else f"line {guards[0].lineno}"}
+            r2.replay = c14.preprocessed_fixed_case()
+        return [r, r2]
     return Task(f"{PROP}.S.call_site", PROP, "FortranReader.__init__", run)
 
 
